@@ -39,4 +39,36 @@ def pmapJ (j : Json) : Except String Json := do
   return Json.mkObj [("out", natList (s.out.map (fun p => p.1 * m + p.2))), ("ended", Json.bool s.ended),
     ("dropped", Json.bool s.dropped), ("alive", toJson alive), ("steps", toJson steps), ("workers", toJson m)]
 
+def pmFirstRefused (c : Cfg) : St → List Lbl → Nat → St × Option Nat
+  | s, [], _ => (s, none)
+  | s, l :: ls, k => match step c s l with
+    | none => (s, some k)
+    | some s' => pmFirstRefused c s' ls (k + 1)
+
+def parsePmLbl (j : Json) : Except String Lbl := do
+  let a ← (fromJson? j : Except String (Array Json))
+  match a.toList with
+  | [k] => do
+    let ks ← (fromJson? k : Except String String)
+    if ks == "n" then pure .cNext else if ks == "d" then pure .cDrop else throw s!"bad label {ks}"
+  | [k, w] => do
+    let ks ← (fromJson? k : Except String String)
+    let wn ← (fromJson? w : Except String Nat)
+    if ks == "r" then pure (.wRecv wn) else if ks == "s" then pure (.wSend wn) else throw s!"bad label {ks}"
+  | _ => throw "bad label"
+
+/-- `{"m":"pmaptrace","threads":T,"n":n,"trace":[["r",w]|["s",w]|["n"]|["d"],…]}` → does M-PMAP accept the observed order of
+channel operations; where it refuses; the items `next()` has returned in the model after the trace -/
+def pmapTraceJ (j : Json) : Except String Json := do
+  let T ← getNat j "threads"
+  let n ← getNat j "n"
+  let trJ ← getArr j "trace"
+  let tr ← trJ.toList.mapM parsePmLbl
+  let m := min T n
+  let c : Cfg := { m := m, nq := if m = 0 then 0 else n / m, nr := if m = 0 then 0 else n % m }
+  let (s, at_) := pmFirstRefused c (init c) tr 0
+  let alive := ((List.range m).filter (fun w => !(s.exited w))).length
+  return Json.mkObj [("ok", Json.bool at_.isNone), ("at", toJson (at_.getD tr.length)),
+    ("out", natList (s.out.map (fun p => p.1 * m + p.2))), ("ended", Json.bool s.ended), ("alive", toJson alive)]
+
 end Sedpack.Drv
